@@ -315,6 +315,29 @@ def mon_c01(hs, prev, op, ok, trace, cur, known):
                     worth += claim_val(b, s_, e)
             if worth >= 1:
                 return ('violation', 'WithdrawUnbonded by %s failed although its released claims are worth %d' % (u, worth))
+            # claims on batches whose unbonding period has fully elapsed (time + period <= now) and for
+            # which exactly the expected coins were delivered: the withdrawal itself must release them
+            if not hs.get('unb_slashed'):
+                env_ = prev.one('env')
+                unb_ = int(prev.one('hub.params')[2])
+                if env_ is not None and int(env_[0]) == unb_:
+                    mworth = 0
+                    for (_, bid, b, s_) in pw:
+                        e = ph.get(bid)
+                        if e and not e['rel'] and e['time'] + unb_ <= now(prev):
+                            exp_i = e['samt'] * e['swd'] // D + e['bamt'] * e['bwd'] // D
+                            if hs.get('delivered', {}).get(e['time'] + unb_) == exp_i:
+                                mworth += claim_val(b, s_, e)
+                            else:
+                                mworth = 0
+                                break
+                    # every EARLIER unreleased batch must be in the same situation for the release to be plain
+                    plain = all((not e['rel'] and e['time'] + unb_ <= now(prev)
+                                 and hs.get('delivered', {}).get(e['time'] + unb_) == e['samt'] * e['swd'] // D + e['bamt'] * e['bwd'] // D)
+                                or e['rel'] or e['time'] + unb_ > now(prev) for e in ph.values())
+                    if plain and mworth >= 4 + 2 * len(pw):
+                        return ('violation', 'WithdrawUnbonded by %s failed at t=%d although its claims on batches whose unbonding period '
+                                'has elapsed (and whose coins were delivered in full) are worth %d' % (u, now(prev), mworth))
     return None
 
 
@@ -978,6 +1001,14 @@ def mon_c15(hs, prev, op, ok, trace, cur, known):
         before = acc_atomics(prs[0], ph)
         after = acc_atomics(rs[0], ch)
         if a == claimer:
+            # a claim takes whole units only: what it does not pay stays accrued
+            paid_ = 0
+            for x in trace_lines(trace):
+                if x[1] == 'bank' and x[2] == 'reward':
+                    paid_ += sum(a_ for d_, a_ in coins(x[4]))
+            if dgi == 0 and after != before - paid_ * D:
+                return ('violation', 'ClaimRewards by %s paid %d but its accrued reward went from %d to %d atomics: %d atomics were lost'
+                        % (a, paid_, before, after, before - paid_ * D - after))
             continue
         # accrual across this operation: exactly balance(before the operation's index update) x index increase.
         # Balance changes inside an UpdateGlobalIndex transaction do not occur (it moves no bSei).
